@@ -76,7 +76,7 @@ def execute(case):
             A, B = sw.build(q["src"]), sw.build(q["dst"])
             if A.dimension is not B.dimension:
                 continue
-            classes = domain.pair_classes(A, B, m.One)
+            classes = domain.pair_classes(A, B, m.One) + domain.regroup_class(A, B, m.One, sz)
             pairs.append({"shape": "+".join(classes) or "D_ok", "determined": sz.determined(A, B),
                           "label": f"{A} -> {B}", "ops": ops_on(m1 * A, 2 * B, B)})
         return {"pairs": pairs}
